@@ -135,6 +135,22 @@ def build(s):
 
 # {{{ to_spec
 
+def _to_spec_ordered(o):
+    if isinstance(o, p.Expression):
+        return (class_tag(type(o)), *[_to_spec_ordered(f) for f in node_fields(o)])
+    if isinstance(o, tuple):
+        return ("tuple", *[_to_spec_ordered(c) for c in o])
+    if isinstance(o, list):
+        return ("list", *[_to_spec_ordered(c) for c in o])
+    if isinstance(o, np.ndarray):
+        return ("array", tuple(o.shape), *[_to_spec_ordered(o[i]) for i in np.ndindex(o.shape)])
+    if isinstance(o, immutabledict):
+        return ("map", *[(k, _to_spec_ordered(v)) for k, v in o.items()])
+    if isinstance(o, dict):
+        return ("dict", *[(k, _to_spec_ordered(v)) for k, v in o.items()])
+    return to_spec(o)
+
+
 def node_fields(o):
     """Field values of an Expression by introspection only (no mapper)."""
     cls = type(o)
@@ -145,7 +161,12 @@ def node_fields(o):
         return tuple(o.__getinitargs__())
 
 
-def to_spec(o):
+def to_spec(o, ordered=False):
+    """Normal form: the entries of keyword mappings sorted by key (a mapping's equality ignores
+    order).  ordered=True keeps the insertion order instead -- the order in which the values are
+    evaluated and handed to the callee, which is what value comparisons have to use."""
+    if ordered:
+        return _to_spec_ordered(o)
     if isinstance(o, p.Expression):
         return (class_tag(type(o)), *[to_spec(f) for f in node_fields(o)])
     if isinstance(o, (bool, np.bool_)) and type(o) is bool:
